@@ -263,7 +263,7 @@ class Ctx:
         if simulate:
             workers = 1
         heap = heap or ("24g" if self.thorough else "8g")
-        jopts = "-Xss512m -Xmx%s" % heap
+        jopts = "-Xss512m -Xmx%s -Djava.io.tmpdir=%s" % (heap, work)  # TLC drops an empty tlc-<n> dir into java.io.tmpdir per run
         if deque:
             jopts += " -Dtlc2.tool.queue.IStateQueue=StateDeque"
         cmd = ["java"] + jopts.split() + ["-XX:+UseParallelGC", "-cp",
